@@ -7,6 +7,8 @@ package main
 //   V <idx> <class> <site> <alloc> <ns> <msg> violation observed in the case
 //   T <idx> <site>                            time budget exceeded; worker exits 3
 //   D <json>                                  chunk finished, statistics
+// and "STREAM <k> <sub> <warm> <n>" (retention family, retain.go), answered by B lines
+// (every 64th input), possibly T, and one S line with the heap measurements.
 // A fatal runtime error (out of memory, stack overflow) kills the worker; the
 // parent knows the case from the last B line and the site from stderr.
 
@@ -117,7 +119,13 @@ var (
 	curStart atomic.Int64 // unix nanos of the running case, 0 if none
 	curIdx   atomic.Int64
 	curSeq   atomic.Int64
+	inStream atomic.Bool // the running case is an input of a retention stream
 )
+
+// runStreamInput is the frame the watchdog looks for in a retention stream.
+//
+//go:noinline
+func runStreamInput(in streamInput) outcome { return in.run() }
 
 var frameLine = regexp.MustCompile(`^([^\s].*)\(.*\)$`)
 
@@ -167,7 +175,11 @@ func watchdog(budget time.Duration) {
 		}
 		idx := curIdx.Load()
 		seq := curSeq.Load()
-		site, n := spinSite(3*time.Second, "main.runCase")
+		caseFn := "main.runCase"
+		if inStream.Load() {
+			caseFn = "main.runStreamInput"
+		}
+		site, n := spinSite(3*time.Second, caseFn)
 		if curSeq.Load() != seq || curStart.Load() == 0 {
 			// the case ended while it was being sampled (within seconds of the
 			// budget): it is not "still running"
@@ -257,6 +269,7 @@ func workerMain() {
 	}
 	ts := buildTargets()
 	gs := buildGroups(ts, tier)
+	ss := buildStreams()
 	w := bufio.NewWriterSize(os.Stdout, 1<<16)
 	fmt.Fprintf(w, "H %s\n", tableHash(gs))
 	w.Flush()
@@ -268,6 +281,16 @@ func workerMain() {
 	classID := map[string]int{}
 	for sc.Scan() {
 		f := strings.Fields(sc.Text())
+		if len(f) == 5 && f[0] == "STREAM" {
+			k, _ := strconv.Atoi(f[1])
+			sub, _ := strconv.Atoi(f[2])
+			warm, _ := strconv.Atoi(f[3])
+			cnt, _ := strconv.Atoi(f[4])
+			inStream.Store(true)
+			workerStream(w, ss, k, sub, warm, cnt)
+			inStream.Store(false)
+			continue
+		}
 		if len(f) != 4 || f[0] != "RUN" {
 			continue
 		}
